@@ -126,8 +126,9 @@ int main(int argc, char** argv) {
     for (auto& s : names) {
       if (s == "masa_test_function") continue;
       // (a) re-initialising one handle must not grow the heap; (b) N fresh handles grow linearly with a slope independent of the catalogue size
-      masa_init<double>("g_" + s, s); long base = g_live; long after[4]; int reps[4] = {1, 2, 4, 8}; int done = 0;
-      for (int q = 0; q < 4; q++) { while (done < reps[q]) { masa_init<double>("g_" + s, s); done++; } after[q] = g_live - base; }
+      // (handle spelled with upper case, a dash and a blank: it is a handle, not a name, and is used verbatim)
+      masa_init<double>("G-r " + s, s); long base = g_live; long after[4]; int reps[4] = {1, 2, 4, 8}; int done = 0;
+      for (int q = 0; q < 4; q++) { while (done < reps[q]) { masa_init<double>("G-r " + s, s); done++; } after[q] = g_live - base; }
       long fresh0 = g_live; for (int q = 0; q < 8; q++) masa_init<double>("f" + std::to_string(q) + "_" + s, s); long slope = (g_live - fresh0) / 8;
       // footprint of one instance: measured by the registry itself = growth caused by the very first init of this handle family
       fprintf(fo, "G\t%s\t%ld\t%ld\t%ld\t%ld\t%ld\n", s.c_str(), after[0], after[1], after[2], after[3], slope);
